@@ -239,9 +239,9 @@ def run(ctx):
             else:
                 got, flags = [dec_stmt(x) for x in ans[1][0]], ans[1][1] == "T"
             if got != lark_doc:
-                res.violation("the model reader and the grammar disagree on a text", case, impl=lark_doc, model=got, clause="model tie: reader")
+                res.violation("the model reader and the grammar disagree on a text", case, impl=lark_doc, model=got, clause="model tie: reader", tie_only=True)
             elif got is not None and flags != int_ok(lark_doc):
-                res.violation("the model reader and int() disagree on which flags are integers", case, impl=int_ok(lark_doc), model=flags, clause="model tie: reader")
+                res.violation("the model reader and int() disagree on which flags are integers", case, impl=int_ok(lark_doc), model=flags, clause="model tie: reader", tie_only=True)
 
         batch.add(["amp_text", text], on)
 
